@@ -57,7 +57,7 @@ def check(run):
     rng = run.rng
     nlaws = npairs = nq = 0
     samples = []
-    if T is not None and drv2 and drv19:
+    if T is not None and drv2:            # without the extracted laws model (its proofs no longer check) the implementation-only laws still search for a failing input
         g = exprgen.Gen(T, rng)
         trees = []
         for cn, mk, _ in exprgen.shapes(T)[::3]:
@@ -96,9 +96,17 @@ def check(run):
         for k in range(6):
             x = rng.random() * 10 ** rng.randrange(-12, 3)
             near.append((repr(x), repr(nxt(x))))
-        for ctx in ('d0 + %s', 'fabs(%s)', '%s < d0', 'b0 ? %s : d0', '2.0 * %s + d0'):
+        # every builtin function, the varied constant in each argument position in turn
+        fctx = []
+        for f in T.fns:
+            nm = next((w for w in (T.sp.get(f['tok']) or []) if w[0].isalpha()), None)
+            if not nm:
+                continue
+            for pos in range(f['arity']):
+                fctx.append('%s(%s)' % (nm, ', '.join('%s' if i == pos else '1.5' for i in range(f['arity']))))
+        for ctx in ['d0 + %s', 'fabs(%s)', '%s < d0', 'b0 ? %s : d0', '2.0 * %s + d0'] + fctx:
             for a, b in near:
-                if ('.' in a or 'e' in a) or ctx in ('d0 + %s', '%s < d0'):
+                if (('.' in a or 'e' in a) and (ctx not in fctx or (a, b) in near[:2])) or ctx in ('d0 + %s', '%s < d0'):
                     pairs.append((ctx % a, ctx % b, 'near-constant'))
                     pairs.append((ctx % b, ctx % b, 'same'))
         nsh = 16
@@ -182,13 +190,13 @@ def check(run):
                     run.fail('equal trees print differently: %r / %r' % (a, b), dict(a=a, b=b), shape='law:equal-text')
                 model_in.append('E %s | %s' % (t1, t2)); model_expect.append(('EQ', '%d %d' % (e12, e21)))
         # ---- the hand models (extracted) against the implementation on the same trees ------------------------
-        out = subprocess.run([drv19], input='\n'.join(model_in) + '\n', stdout=subprocess.PIPE, universal_newlines=True).stdout.split('\n')
+        out = subprocess.run([drv19], input='\n'.join(model_in) + '\n', stdout=subprocess.PIPE, universal_newlines=True).stdout.split('\n') if drv19 else []
         mism = []
         for line, (tag, want), inp in zip(out, model_expect, model_in):
             got_tag, _, got = line.partition(' ')
             if got_tag != tag or got.strip() != want.strip():
                 mism.append(dict(input=inp[:300], model=line[:300], implementation=want[:300]))
-        if len(out) - 1 < len(model_in):
+        if drv19 and len(out) - 1 < len(model_in):
             mism.append(dict(note='model driver stopped early', lines=len(out), expected=len(model_in)))
         if mism:
             run.tie_broken('ExprLaws model (extracted) vs implementation', mism[:6])
